@@ -37,7 +37,13 @@ from typing_extensions import ParamSpec, Protocol, assert_never
 import pyanalyze
 from pyanalyze.error_code import Error
 from pyanalyze.extensions import CustomCheck, ExternalType
-from pyanalyze.safe import all_of_type, safe_equals, safe_isinstance, safe_issubclass
+from pyanalyze.safe import (
+    all_of_type,
+    safe_equals,
+    safe_isinstance,
+    safe_issubclass,
+    safe_repr,
+)
 
 T = TypeVar("T")
 # __builtin__ in Python 2 and builtins in Python 3
@@ -649,13 +655,7 @@ class KnownValue(Value):
         elif isinstance(self.val, type):
             return f"type {get_fully_qualified_name(self.val)!r}"
         else:
-            try:
-                val_repr = repr(self.val)
-            except Exception:
-                # repr() of an arbitrary object can fail; for example, an int
-                # with more digits than sys.get_int_max_str_digits() raises ValueError
-                val_repr = f"<{type(self.val).__name__} object>"
-            return f"Literal[{val_repr}]"
+            return f"Literal[{safe_repr(self.val)}]"
 
     def substitute_typevars(self, typevars: TypeVarMap) -> "KnownValue":
         if not typevars or not callable(self.val):
@@ -2092,12 +2092,12 @@ class MultiValuedValue(Value):
         if not others:
             if has_none:
                 literals.append(KnownValue(None))
-            body = ", ".join(repr(val.val) for val in literals)
+            body = ", ".join(safe_repr(val.val) for val in literals)
             return f"Literal[{body}]"
         else:
             elements = [str(val) for val in others]
             if literals:
-                body = ", ".join(repr(val.val) for val in literals)
+                body = ", ".join(safe_repr(val.val) for val in literals)
                 elements.append(f"Literal[{body}]")
             if has_none:
                 elements.append("None")
